@@ -26,7 +26,7 @@ def _case(draw):
     R = draw(st.floats(200.0, 3000.0))
     spec = draw(gen.shot(look_max_deg=60.0, rel_deg=(-2.0, 30.0), range_ft=R, max_winds=2, powder=True))
     # second shot on the same calculator: same projectile, something else changed
-    var = draw(st.sampled_from(["atmo", "atmo", "twist", "look", "same"]))
+    var = draw(st.sampled_from(["atmo", "atmo", "twist", "look", "same", "weight", "bullet", "mv"]))
     spec2 = dict(spec)
     if var == "atmo":
         spec2["atmo"] = draw(gen.atmo(("explicit", "icao")))
@@ -34,6 +34,12 @@ def _case(draw):
         spec2["twist"] = -spec.get("twist", 0.0) if spec.get("twist") else 9.0
     elif var == "look":
         spec2["look"] = draw(st.floats(-60.0, 60.0)) * gen.DEG
+    elif var == "weight" and spec.get("wdl"):
+        spec2["wdl"] = [spec["wdl"][0] * draw(st.floats(0.4, 2.5)), spec["wdl"][1], spec["wdl"][2]]
+    elif var == "bullet" and spec.get("wdl"):
+        spec2["wdl"] = [spec["wdl"][0] * draw(st.floats(0.5, 2.0)), spec["wdl"][1] * draw(st.floats(0.7, 1.4)), spec["wdl"][2] * draw(st.floats(0.7, 1.4))]
+    elif var == "mv":
+        spec2["mv"] = spec["mv"] * draw(st.floats(0.5, 1.3))
     # partial bullet data: twist given, but the length or the diameter is not (weight stays: its absence is not a "dimension")
     if spec.get("wdl") and draw(st.integers(0, 5)) == 0:
         w_, d_, l_ = spec["wdl"]
@@ -51,6 +57,12 @@ def _case(draw):
             s_["rel"] = draw(st.floats(84.0, 89.8)) * gen.DEG
             s_["cant"] = 0.0
             s_["winds"] = [[draw(st.floats(15.0, 90.0)), math.pi + draw(st.floats(-0.5, 0.5)), 1e8]]
+        if draw(st.booleans()):
+            # inclined sight line with rows behind the firing point (the sight-line geometry has no special case there)
+            spec["look"] = draw(st.floats(-20.0, 20.0)) * gen.DEG
+            spec2["look"] = draw(st.sampled_from([spec["look"], -spec["look"], 0.0]))
+            for s_ in (spec, spec2):
+                s_["rel"] = s_["rel"] - s_["look"]
         cfg = {"cMinimumVelocity": 0.0, "cMaximumDrop": -draw(st.floats(50.0, 3000.0))}
         return {"shots": [spec, spec2], "R": R, "step": R / draw(st.integers(2, 15)), "extra": draw(st.booleans()),
                 "ts": draw(st.sampled_from([0.25, 1.0])), "config": cfg, "var": var, "blown_back": True}
@@ -62,7 +74,7 @@ def _case(draw):
     elif lim == "altitude":
         cfg["cMinimumAltitude"] = spec["atmo"]["alt"] - draw(st.floats(1.0, 100.0))
     return {"shots": [spec, spec2], "R": R, "step": R / draw(st.integers(2, 15)), "extra": draw(st.booleans()),
-            "ts": draw(st.sampled_from([0.0, 0.0, 0.05, 0.3])), "config": cfg, "var": var}
+            "ts": draw(st.sampled_from([0.0, 0.0, 0.05, 0.3])), "config": cfg, "var": var, "prior": draw(gen.prior())}
 
 
 def _sound_speed_fps(atmo_obj, alt_ft):
@@ -146,7 +158,7 @@ def check(case):
     r = Res()
     h = 0.5
     cfg = dict(case["config"])
-    calc = build.calculator(cfg)
+    calc = build.calculator(cfg, prior=case.get("prior"))
     kinds = set()
     nt = False
     # history: both shots are fired back to back on the same calculator first (per-shot state must be re-derived);
